@@ -767,7 +767,8 @@ structure InRange (cfg : Cfg α) (v : View α) : Prop where
   limitMax : 0 ≤ cfg.limitMaxBytes ∧ cfg.limitMaxBytes < 2 ^ 60
   memTotal : 0 ≤ cfg.hostMemTotal ∧ cfg.hostMemTotal ≤ int64Max
   current : ∀ c, v.current = some c → 0 ≤ c ∧ c < 2 ^ 60
-  stat : ∀ s, v.memStat = some s → (0 ≤ s.activeFile ∧ s.activeFile < 2 ^ 60) ∧ (0 ≤ s.inactiveFile ∧ s.inactiveFile < 2 ^ 60) ∧
+  stat : ∀ s, v.memStat = some s → (∀ a, s.activeFile = some a → 0 ≤ a ∧ a < 2 ^ 60) ∧
+    (∀ a, s.inactiveFile = some a → 0 ≤ a ∧ a < 2 ^ 60) ∧
     (∀ a, s.activeAnon = some a → 0 ≤ a ∧ a < 2 ^ 60) ∧ (∀ a, s.inactiveAnon = some a → 0 ≤ a ∧ a < 2 ^ 60)
   memMin : ∀ m, v.memMin = some m → 0 ≤ m ∧ m ≤ int64Max
   memHigh : ∀ m, v.memHigh = some m → 0 ≤ m ∧ m ≤ int64Max
@@ -781,23 +782,31 @@ theorem reclaimable_range {cfg : Cfg α} {sys : Sys α} {v : View α} (h : InRan
   | some s =>
     obtain ⟨h1, h2, h3, h4⟩ := h.stat s hs
     simp only [hs] at hr
-    split at hr
-    · cases hf : v.effSwapFree with
-      | none => simp [hf] at hr
-      | some free =>
-        simp only [hf] at hr
+    cases haf : s.activeFile with
+    | none => simp [haf] at hr
+    | some af =>
+      cases hif : s.inactiveFile with
+      | none => simp [haf, hif] at hr
+      | some inf =>
+        have := h1 af haf; have := h2 inf hif
+        simp only [haf, hif] at hr
         split at hr
-        · cases ha : s.activeAnon with
-          | none => simp [ha] at hr
-          | some a =>
-            cases hi : s.inactiveAnon with
-            | none => simp [ha, hi] at hr
-            | some i =>
-              simp only [ha, hi, Option.some.injEq] at hr
-              have := h3 a ha; have := h4 i hi
-              omega
+        · cases hf : v.effSwapFree with
+          | none => simp [hf] at hr
+          | some free =>
+            simp only [hf] at hr
+            split at hr
+            · cases ha : s.activeAnon with
+              | none => simp [ha] at hr
+              | some a =>
+                cases hi : s.inactiveAnon with
+                | none => simp [ha, hi] at hr
+                | some i =>
+                  simp only [ha, hi, Option.some.injEq] at hr
+                  have := h3 a ha; have := h4 i hi
+                  omega
+            · simp only [Option.some.injEq] at hr; omega
         · simp only [Option.some.injEq] at hr; omega
-    · simp only [Option.some.injEq] at hr; omega
 
 theorem floor_range {cfg : Cfg α} {sys : Sys α} {v : View α} (h : InRange cfg v) {lo : Int}
     (hlo : floorOf cfg sys v = some lo) :
